@@ -232,7 +232,7 @@ def main():
 
 MANIFEST = {
     "claimed": True,
-    "text": 'PARTIAL. Theorem C24_reencode_ok (Coq, all byte strings, NTPv3/v4/v5, any fields/MAC): every packet the no-key decoder accepts is encoded by serialize without error and without panic into any sufficiently large buffer, to bytes that do not depend on the buffer (first half of the property, full strength, on the model of the tree with the fix-c24 repair). The second half (the re-encoding decodes to a packet that encodes to the same bytes) is NOT proved as a theorem; it is checked on every run by the correspondence (decode-encode-decode-encode on implementation and model, all stages compared) and by the independent monitor, and shown on a concrete NTPv5 instance (Example C24_nonvacuous).',
-    "note": "Trusted: Coq kernel+vm_compute; hand-written model of deserialize/serialize, the field encoders (minimum sizes 16/28/4, padding), Mac and the header codecs; encoder modelled as a Cursor<&mut [u8]> from position 0 with io errors as one class; reading of 'one normalising round' per DESIGN.md section 5. Confirmed defect on the unrepaired tree: NTPv5 ReferenceIdRequest with payload length not a multiple of 4 decodes, serialize then hits assert_eq!(payload_len % 4, 0): ./check C24 on /repo reports VIOLATION with that datagram until branch fix-c24 (commit 882b5bf, decode rejects the field) is cherry-picked. Print Assumptions: closed under the global context.",
+    "text": 'Theorems (Coq, all byte strings, NTPv3/v4/v5, all field kinds incl. unknown type ids, any MAC): C24_reencode_ok - every packet the no-key decoder accepts is encoded by serialize without error and without panic into any sufficiently large buffer, to bytes b1 that do not depend on the buffer; C24_fixed_point - b1 is decoded (without keys) to a packet p1 that encodes to exactly b1 again, i.e. after one normalising round decode.encode and encode.decode are stable (parse-of-print proved for the three header formats incl. the v5 leap normalisation, every extension field kind with the RFC 7822 minimum sizes 16/28/4 and padding, and the MAC). The model is tied to the code on every run by decode-encode-decode-encode on implementation and model with all four stages compared, plus an independent monitor of the property.',
+    "note": "Trusted: Coq kernel+vm_compute; hand-written model of deserialize/serialize, the field encoders, Mac and the header codecs (coq/Model/{Bytes,ExtField,Packet}.v); encoder modelled as a Cursor<&mut [u8]> from position 0 with io errors as one class; reading of 'one normalising round' per DESIGN.md section 5; hypothesis: the datagram is a list of bytes in [0,256). The model is the tree with fix-c24 (landed in /repo as 7b8c524): before it, an NTPv5 ReferenceIdRequest with payload length not a multiple of 4 decoded and serialize hit assert_eq!(payload_len % 4, 0) (witness kept in corpus/C24/refreq_odd.txt, run first on every check). Print Assumptions: closed under the global context.",
     "design_ref": 'DESIGN.md 3 C24',
 }
